@@ -71,7 +71,7 @@ fn judge_dt(rec: &mut Rec, i: i128, o: i32) {
     let wit = |obs: Value| json!({"instant_utc": show(i), "offset": o, "model_local": show(local), "class": cls, "observed": obs});
     // the offset-free value of the instant, and — independently built — the offset-free value of the
     // *shifted* instant, whose getters/format are what the property says the offset value must show
-    let Some((base, bobs)) = sane_value(i, 0) else {
+    let Some((base, _)) = sane_value(i, 0) else {
         rec.bin(SKIP_START);
         return;
     };
@@ -90,12 +90,12 @@ fn judge_dt(rec: &mut Rec, i: i128, o: i32) {
         let y = base.as_offset(Offset::Fixed(o));
         let yg = (y.year(), y.month(), y.day(), y.hour(), y.minute(), y.second(), y.nano());
         let bg = (base.year(), base.month(), base.day(), base.hour(), base.minute(), base.second(), base.nano());
-        ((read(&x), read_via_timestamp(&x.set_offset(Offset::Fixed(0))), x.timestamp(), x.as_ymdhms()), x.get_offset(), same, sh, y, y.get_offset(), yg, bg)
+        let before = (read(&base), read_via_timestamp(&base), base.timestamp(), base.as_ymdhms());
+        ((read(&x), read_via_timestamp(&x.set_offset(Offset::Fixed(0))), x.timestamp(), x.as_ymdhms()), before, x.get_offset(), same, sh, y, y.get_offset(), yg, bg)
     });
     match r {
         Err(p) => rec.violation(format!("C10|datetime|set_offset/getters/as_offset|panic|{},{}", p.class, p.site()), || wit(p.to_json())),
-        Ok((inst, goff, same, sh, y, yoff, yg, bg)) => {
-            let before = (bobs.ns_since, bobs.via_ts, base.timestamp(), bobs.utc);
+        Ok((inst, before, goff, same, sh, y, yoff, yg, bg)) => {
             if inst != before {
                 rec.violation(format!("C10|datetime|set_offset|instant-changed|{}", cls), || wit(json!({"(nanos_since, timestamp+nano, timestamp, as_ymdhms) before": format!("{:?}", before), "after": format!("{:?}", inst)})));
             }
